@@ -492,10 +492,10 @@ func main() {
 		probe := mk.mk()
 		o := ops(mk.kind, probe.a)
 		jobs = append(jobs, func() {
-			seq.Explore(r, &seq.Spec[*state]{Name: mk.name + "/all-sequences", Ops: o, New: mk.mk, After: after, AtEnd: atEnd, Depth: r.Pick(5, 7)})
+			seq.Explore(r, &seq.Spec[*state]{Name: mk.name + "/all-sequences", Ops: o, New: mk.mk, After: after, AtEnd: atEnd, Depth: r.Pick(5, 6)})
 		})
 		jobs = append(jobs, func() {
-			seq.Explore(r, &seq.Spec[*state]{Name: mk.name + "/merged", Ops: o, New: mk.mk, After: after, AtEnd: atEnd, Key: key, Depth: r.Pick(10, 14)})
+			seq.Explore(r, &seq.Spec[*state]{Name: mk.name + "/merged", Ops: o, New: mk.mk, After: after, AtEnd: atEnd, Key: key, Depth: r.Pick(10, 13)})
 		})
 	}
 	seq.Parallel(16, jobs)
